@@ -15,6 +15,7 @@ import (
 	"github.com/database64128/shadowsocks-go/conn"
 	"github.com/database64128/shadowsocks-go/router"
 	"github.com/database64128/shadowsocks-go/stats"
+	"github.com/database64128/shadowsocks-go/verifhook"
 	"github.com/database64128/shadowsocks-go/zerocopy"
 	"go.uber.org/zap"
 )
@@ -414,6 +415,7 @@ func (s *UDPSessionRelay) recvFromServerConnGeneric(ctx context.Context, lnc *ud
 					return
 				}
 
+				verifhook.At("udp.init.beforeSwap")
 				oldState := entry.state.Swap(natConn)
 				if oldState != nil {
 					natConn.Close()
@@ -537,6 +539,7 @@ func (s *UDPSessionRelay) relayServerConnToNatConnGeneric(ctx context.Context, u
 			)
 		}
 
+		verifhook.At("udp.uplink.beforeRearm")
 		err = uplink.natConn.SetReadDeadline(time.Now().Add(uplink.natTimeout))
 		if err != nil {
 			uplink.logger.Error("Failed to set read deadline on natConn",
